@@ -132,6 +132,7 @@ func main() {
 	keeperOut := flag.String("keeper", "", "Coq output for the translated x/stream keeper and message server")
 	genDir := flag.String("gendir", "", "directory for the translated x/wrkchain and x/beacon files (Generated{Wrkchain,Beacon}{Types,Keeper}.v)")
 	flag.Parse()
+	repoRoot = *repo
 	if *ktypesOut != "" && *keeperOut != "" {
 		writeKeeper(*repo, "stream", *ktypesOut, *keeperOut)
 	}
@@ -649,6 +650,8 @@ func sortedKeys[V any](m map[string]V) []string {
 	return ks
 }
 
+var repoRoot = "/repo"
+
 func writeCoq(path string, fa *facts) {
 	var sb strings.Builder
 	sb.WriteString("(* GENERATED by /verif/translator from /repo's working tree on every check. Do not edit. *)\n")
@@ -714,6 +717,7 @@ func writeCoq(path string, fa *facts) {
 		ef = append(ef, fmt.Sprintf("(%s, %s)", q(k), strList(fa.Effects[k])))
 	}
 	sb.WriteString("Definition effects : list (string * list string) :=\n  [" + strings.Join(ef, ";\n   ") + "].\n")
+	sb.WriteString("Definition process_state : list string :=\n  " + strList(processState(repoRoot)) + ".\n")
 	sb.WriteString("Definition roots_consensus : list string :=\n  " + strList(fa.RootsConsensus) + ".\n")
 	sb.WriteString("Definition roots_query : list string :=\n  " + strList(fa.RootsQuery) + ".\n")
 	sb.WriteString("Definition reach_consensus : list string :=\n  " + strList(fa.ReachConsensus) + ".\n")
